@@ -40,7 +40,7 @@ try:
         r1 = run(["/venv/bin/python", os.path.join(d, "demo.py")])
         out["demo_mutated_exit"] = r1.returncode
         out["demo_mutated_tail"] = (r1.stderr or r1.stdout)[-300:]
-        t = run(["/venv/bin/python", "-m", "pytest", "-q", "-p", "no:cacheprovider", "--timeout=900", "-n", "8", "tests",
+        t = run(["/venv/bin/python", "-m", "pytest", "-q", "-p", "no:cacheprovider", "--timeout=900", "-n", os.environ.get("CONFIRM_N", "8"), "tests",
                  "--deselect", "tests/test_version.py::test_version"])
         tail = t.stdout.strip().splitlines()[-1] if t.stdout.strip() else ""
         out["suite"] = tail
